@@ -199,7 +199,8 @@ class PrefixReport:
     """lets one property reuse another property's rule function: instances are recorded in the outer report
     under a different rule prefix (explanation / assumptions of the inner module are ignored)"""
 
-    def __init__(self, outer, old, new, only=None):
+    def __init__(self, outer, old, new, only=None, keys=None):
+        object.__setattr__(self, "_keys", keys)      # optional predicate on the instance key (keep only some clauses of a rule)
         object.__setattr__(self, "_o", outer)
         object.__setattr__(self, "_old", old)
         object.__setattr__(self, "_new", new)
@@ -211,16 +212,19 @@ class PrefixReport:
     def _keep(self, rule):
         return self._only is None or any(rule.startswith(x) for x in self._only)
 
-    def ok(self, rule, *a, **k):
-        if self._keep(rule):
-            self._o.ok(self._r(rule), *a, **k)
+    def _keepk(self, rule, key):
+        return self._keep(rule) and (self._keys is None or self._keys(key))
 
-    def bad(self, rule, *a, **k):
-        if self._keep(rule):
-            self._o.bad(self._r(rule), *a, **k)
+    def ok(self, rule, key, *a, **k):
+        if self._keepk(rule, key):
+            self._o.ok(self._r(rule), key, *a, **k)
+
+    def bad(self, rule, key, *a, **k):
+        if self._keepk(rule, key):
+            self._o.bad(self._r(rule), key, *a, **k)
 
     def check(self, rule, key, cond, *a, **k):
-        if self._keep(rule):
+        if self._keepk(rule, key):
             return self._o.check(self._r(rule), key, cond, *a, **k)
         return cond
 
